@@ -94,6 +94,19 @@ def json_key(ops):
     return "\n".join(ops)
 
 
+def leftover_captures():
+    out = []
+    for r1, r2, names in ((b"*.b.c", b"a.*.*", [b"a.b.c", b"x.b.c"]), (b"*.checkout.latency.p99", b"web.*.*.mean", [b"web.checkout.latency.p99"]), (b"*.*.z", b"a.*.*", [b"a.b.z", b"a.b.c"])):
+        for order in (0, 1):
+            for unordered in (False, True):
+                rules = [GM.rule(r1, b"shop", help=b"r0", labels=[(b"site", b"$1"), (b"region", b"$2"), (b"zone", b"${3}")]), GM.rule(r2, b"other_$1", help=b"r1", labels=[(b"ca", b"$2")])]
+                cfg = (GM.defaults(disable_ordering=True) if unordered else None, rules[::-1] if order else rules)
+                for cache in (("none", 0), ("lru", 2)):
+                    ops = [GM.load_op(cfg)] + [PE.I(n + b":1|c|#env:prod") for n in names] * 2 + ["G"]
+                    out.append((15, cache, ops, None))
+    return out
+
+
 def _run(rep, tier, seed, replay):
     import random
     PAIRS.clear()
@@ -110,7 +123,8 @@ def _run(rep, tier, seed, replay):
     PC.run(rep, "C05", tier, seed, replay, gen, monitor, 800, 40000,
            "%(n)d cases in pairs: a stream of multi-sample lines with mixed types hitting type-filtered rules (static and $n labels, honor_labels on/off, tag keys that "
            "collide after escaping, extended aggregation, sampled timers) through caches none/LRU/RR of size 1-3, and the same samples sent one per line without cache; "
-           "final scrapes must coincide and both must equal the proved model; non-trivial = grouped stream; distinct by op sequence")
+           "final scrapes must coincide and both must equal the proved model; non-trivial = grouped stream; distinct by op sequence",
+           extra_cases=leftover_captures())
 
 
 def run(rep, tier, seed, replay):
